@@ -419,3 +419,33 @@ def _derived_from(f: Func, name: str) -> set[str]:
                 out.add(n.targets[0].id)
                 changed = True
     return out - {name}
+
+
+def check_heap_flags(ctx: Ctx, oid: str):
+    """Decision heap bookkeeping.  `in_heap[v]` false is what makes backtracking re-insert v; so it must be cleared
+    whenever an entry of v is popped (otherwise a variable whose last entry was popped while it was assigned is never
+    offered for a decision again and a partial assignment is published as a model), and set only together with a push."""
+    f = ctx.func("sat", "solve_sat")
+    fns = [f] + [g for g in ctx.repo.callees(f) if g.qualname.startswith("solve_sat.")]
+    pops = pushes = 0
+    for g in fns:
+        for n in own_nodes(g.node):
+            if isinstance(n, ast.Assign) and isinstance(n.value, ast.Call) and ast.unparse(n.value.func) == "heappop" and ast.unparse(n.value.args[0]) == "var_heap":
+                pops += 1
+                var = ast.unparse(n.targets[0].elts[-1]) if isinstance(n.targets[0], ast.Tuple) else "?"
+                blk = _enclosing_block(g.node, n)
+                i = blk.index(n)
+                nxt = blk[i + 1] if i + 1 < len(blk) else None
+                ok = nxt is not None and ast.unparse(nxt) == f"in_heap[{var}] = False"
+                ctx.ob(oid, "R16 PAIRED-EFFECTS", g, "every pop from the decision heap clears the popped variable's in-heap flag, unconditionally", ok, f"after `{ast.unparse(n)}` comes `{ast.unparse(nxt)[:50] if nxt is not None else 'nothing'}`: a variable popped while assigned keeps its flag, backtracking then does not re-insert it, the heap runs dry with variables unassigned and a partial assignment is published as a model", node=n)
+            if isinstance(n, ast.Assign) and ast.unparse(n.targets[0]).startswith("in_heap[") and ast.unparse(n.value) == "True":
+                pushes += 1
+                var = ast.unparse(n.targets[0].slice)
+                blk = _enclosing_block(g.node, n)
+                ok = any(isinstance(x, ast.Expr) and isinstance(x.value, ast.Call) and ast.unparse(x.value.func) == "heappush" and ast.unparse(x.value.args[1]).endswith(f", {var})") for x in blk)
+                ctx.ob(oid, "R16 PAIRED-EFFECTS", g, "the in-heap flag is set only together with a push of that variable", ok, "", node=n)
+    ctx.floor("decision heap pops", pops, 1)
+    ctx.floor("in-heap flag sets", pushes, 1)
+    un = ctx.func("sat", "solve_sat.unassign_to")
+    t = ast.unparse(un.node)
+    ctx.ob(oid, "R16 PAIRED-EFFECTS", un, "backtracking re-inserts every unassigned variable whose flag is clear", "if not in_heap[var]:\n            heappush(var_heap, (-activity[var], var))\n            in_heap[var] = True" in t, "", node=un.node)
